@@ -336,10 +336,47 @@ def _shard_elements(rec, arg):
         _one(rec, key, seed, n)
 
 
+# fixed argument tuples tried for every element besides the sampled ones: the shapes in which in-place slips show
+FX_LISTS = [("l", [1, 2, 3]), ("z", [1, 2, 3], 1), ("l", [("l", [1, 2]), ("l", [3, 4]), 9]), ("z", [("l", [1, 2]), ("l", [3])], 0),
+            ("l", [("l", [1, 2]), ("l", [3])]), ("l", [("s", "ab"), ("s", "c")])]
+FX_SCALARS = [0, 1, -1, 2, ("s", "a")]
+FX_INDEX_LISTS = [("l", [0]), ("l", [("l", []), 1]), ("l", [1, ("l", [0])]), ("l", [("l", [0, 1])])]
+FX_FUNS = [("f", 0), ("f", 2)]
+
+
+def _fixed_tuples(k):
+    if k == 1:
+        return [[a] for a in FX_LISTS]
+    if k == 2:
+        out = []
+        for a in FX_LISTS:
+            for b in FX_SCALARS + FX_INDEX_LISTS[:2] + FX_FUNS + [FX_LISTS[0]]:
+                out += [[a, b], [b, a]]
+        return out
+    out = []
+    for a in FX_LISTS:
+        for b in FX_SCALARS[:4] + FX_INDEX_LISTS + FX_FUNS[:1]:
+            out += [[a, b, 9], [a, b, ("f", 0)], [b, a, 9]]
+    return out
+
+
+def _fixed(rec, key, k):
+    for specs in _fixed_tuples(k):
+        r = check_element(key, specs, False)
+        if r and r[0] == "discard":
+            rec.discard(r[1])
+            continue
+        rec.case(key=(key, repr(specs), "fixed"), nontrivial=True, cls=["element-tier", "fixed argument shapes"])
+        if r:
+            rec.fail(r[0], {"kind": "el", "key": key, "specs": elemargs.tolist(specs), "alias": False}, r[1])
+
+
 def _one(rec, key, seed, n):
     k = harness.vyxal.elements.elements[key][1]
     if k == 0:
         return
+    if k <= 3:
+        _fixed(rec, key, k)
 
     def t(args, alias):
         specs = list(args)
